@@ -122,7 +122,7 @@ func (rl *Shell) endOfHistory() {
 		return
 	}
 
-	rl.History.Walk(-history.Len() + 1)
+	rl.History.Walk(-history.Len())
 }
 
 // Execute the current line, and push the next history event on the buffer stack.
